@@ -295,7 +295,7 @@ func c13BinaryStreams(quick bool) []c13Stream {
 		"append": protocol.NewLockCommandDataAppendString("zz").Data, "append-empty": protocol.NewLockCommandDataAppendString("").Data,
 		"push": protocol.NewLockCommandDataPushString("y").Data, "push-empty": protocol.NewLockCommandDataPushString("").Data,
 		"unset": protocol.NewLockCommandDataUnsetData().Data, "set-empty": protocol.NewLockCommandDataSetString("").Data,
-		"set-array": protocol.NewLockCommandDataSetArray([][]byte{[]byte("a"), {}, []byte("b")}).Data,
+		"set-array":     protocol.NewLockCommandDataSetArray([][]byte{[]byte("a"), {}, []byte("b")}).Data,
 		"prop-len-over": {8, 0, 0, 0, 0, 0x10, 0xff, 0xff, 1, 2}, "prop-len-exact": {8, 0, 0, 0, 0, 0x10, 2, 0, 1, 2}, "prop-only-header": {4, 0, 0, 0, 0, 0x10, 0, 0},
 		"prop-incr-over": {12, 0, 0, 0, 2, 0x11, 0x20, 0, 1, 2, 3, 4, 5, 6, 7, 8},
 	}
